@@ -284,6 +284,22 @@ impl Property for C04 {
                             if file != image {
                                 return ctx.settle(Violation::new("writer-layout", format!("the file written by `fml compile -o` ({} bytes) differs from the image of the same program ({} bytes)", file.len(), image.len()), case()).with("origin", "cli"));
                             }
+                            // the same image on stdout; and the command line that gives compile no
+                            // AST format at all (the pinned tree refuses it): whatever is emitted
+                            // by a run that exits 0 must be the image and nothing else
+                            if let Ok(o) = crate::cli::run_fml(&bin, &["compile", fast.to_str().unwrap()]) {
+                                if o.status.success() && o.stdout != image {
+                                    return ctx.settle(Violation::new("writer-layout", format!("`fml compile` writes {} bytes to stdout, the image of the same program has {} bytes (first difference at {:?})", o.stdout.len(), image.len(), first_diff(&o.stdout, &image)), case()).with("origin", "cli-stdout"));
+                                }
+                            }
+                            if let Ok(text) = std::fs::read(&fast) {
+                                if let Ok(o) = crate::cli::Invocation::new(&bin, &["compile"]).stdin(&text).run() {
+                                    ctx.label("cli-compile-without-any-format");
+                                    if (o.status.success() && o.stdout != image) || (!o.status.success() && !o.stdout.is_empty()) {
+                                        return ctx.settle(Violation::new("writer-layout", format!("`fml compile` reading the AST from stdin without --input-format ends with {:?} and {} bytes on stdout that are not the image ({} bytes)", o.status, o.stdout.len(), image.len()), case()).with("origin", "cli-stdout"));
+                                    }
+                                }
+                            }
                         }
                     }
                 }
